@@ -141,6 +141,14 @@ theorem C11_mul_dim_partial (thr : Rat) (h : 0 ≤ thr) (a b : Q) (hs : (Dim.add
     binop thr .mul a b = valOut (Dim.add a.dim b.dim) (onMagnitudes (fun x y => x * y) a.val b.val) := by
   rw [C11_mul, Dim.mul_of_stable h hs]
 
+-- non-vacuity: integer exponents are stable for every threshold (here: force × length)
+example : (Dim.add ⟨1, 1, -2, 0, 0, 0, 0⟩ ⟨1, 0, 0, 0, 0, 0, 0⟩).All (Stable (1 / 10 ^ 7)) :=
+  (Dim.Integral.add (a := ⟨1, 1, -2, 0, 0, 0, 0⟩) (b := ⟨1, 0, 0, 0, 0, 0, 0⟩)
+    (by refine ⟨?_, ?_, ?_, ?_, ?_, ?_, ?_⟩ <;> decide +kernel) (by refine ⟨?_, ?_, ?_, ?_, ?_, ?_, ?_⟩ <;> decide +kernel)).stable
+
+example : binop (1 / 10 ^ 7) .mul ⟨.scalar 2, ⟨1, 1, -2, 0, 0, 0, 0⟩⟩ ⟨.array [3, 5], ⟨1, 0, 0, 0, 0, 0, 0⟩⟩
+    = .val (.array [6, 10]) ⟨2, 1, -2, 0, 0, 0, 0⟩ := by decide +kernel
+
 /-- **T3** `a / b` with no zero divisor: quotient of the magnitudes, dimension = snapped difference. -/
 theorem C11_div (thr : Rat) (a b : Q) (hnz : b.val.hasZero = false) :
     binop thr .div a b = valOut (Dim.div thr a.dim b.dim) (onMagnitudes (fun x y => x / y) a.val b.val) := by
@@ -156,6 +164,9 @@ theorem C11_div_dim_partial (thr : Rat) (h : 0 ≤ thr) (a b : Q) (hnz : b.val.h
     (hs : (Dim.sub a.dim b.dim).All (Stable thr)) :
     binop thr .div a b = valOut (Dim.sub a.dim b.dim) (onMagnitudes (fun x y => x / y) a.val b.val) := by
   rw [C11_div thr a b hnz, Dim.div_of_stable h hs]
+
+example : binop (1 / 10 ^ 7) .div ⟨.scalar 1, ⟨2, 1, -2, 0, 0, 0, 0⟩⟩ ⟨.scalar 4, ⟨2, 1, -2, 0, 0, 0, 0⟩⟩
+    = .val (.scalar (1 / 4)) Dim.zero := by decide +kernel   -- J / J is a plain number
 
 /-- **T3** a scalar division by zero is the arithmetic error (never a value, never the units error). -/
 theorem C11_div_zero (thr : Rat) (x : Rat) (d e : Dim) :
@@ -183,6 +194,13 @@ theorem C11_pow_int (thr : Rat) (a : Q) (ha : IsQty a) (k : Int) (hz : ¬ (k < 0
       have : ¬ (k : Rat) < 0 := by exact_mod_cast this
       simp [this]
   simp only [pow, hz0, Bool.false_eq_true, if_false, hi, if_true, Rat.num_intCast, hz']
+
+example : binop (1 / 10 ^ 7) .pow ⟨.scalar 2, ⟨1, 0, -1, 0, 0, 0, 0⟩⟩ ⟨.scalar (-2), Dim.zero⟩
+    = .val (.scalar (1 / 4)) ⟨-2, 0, 2, 0, 0, 0, 0⟩ := by decide +kernel   -- (2 m/s)^-2
+
+-- the snapping threshold at work: (m^0.3333333333)^3 is m (1e-10 from 1), (m^0.333333)^3 stays m^0.999999
+example : Dim.pow (1 / 10 ^ 7) ⟨3333333333 / 10 ^ 10, 0, 0, 0, 0, 0, 0⟩ 3 = ⟨1, 0, 0, 0, 0, 0, 0⟩ ∧
+    Dim.pow (1 / 10 ^ 7) ⟨333333 / 10 ^ 6, 0, 0, 0, 0, 0, 0⟩ 3 = ⟨999999 / 10 ^ 6, 0, 0, 0, 0, 0, 0⟩ := by decide +kernel
 
 theorem C11_pow_dim_partial (thr : Rat) (h : 0 ≤ thr) (a : Q) (ha : IsQty a) (k : Int)
     (hz : ¬ (k < 0 ∧ a.val.hasZero = true)) (hs : (Dim.smul k a.dim).All (Stable thr)) :
@@ -260,6 +278,11 @@ theorem C11_conversion_incompatible_partial (thr : Rat) (h : 0 ≤ thr) (a u : Q
   have hne : (Dim.div thr a.dim u.dim).isZero = false := by
     rw [← Bool.not_eq_true, Dim.isZero_iff]; exact div_ne_zero_of_differs h hd
   simp [inUnits, div, hdv, build, hne]
+
+example : Dim.Differs (1 / 10 ^ 7) ⟨1, 0, 0, 0, 0, 0, 0⟩ ⟨0, 0, 1, 0, 0, 0, 0⟩ := Or.inl (by decide +kernel)
+
+example : inUnits (1 / 10 ^ 7) ⟨.scalar 1, ⟨1, 0, 0, 0, 0, 0, 0⟩⟩ ⟨.scalar 1, ⟨0, 0, 1, 0, 0, 0, 0⟩⟩ = .err .unitsError := by
+  decide +kernel   -- 1 m in s
 
 /-- for integer exponents (every unit of the database and every integer power, product and quotient of them) and a
 threshold below 1, *different* dimensions always end in the units error -/
